@@ -28,16 +28,33 @@ PROP_DTYPES = ["double", "int", "int8", "uint8", "int16", "uint16", "float32", "
 AXIS_DTYPES = [d for d in PROP_DTYPES if d != "str"]
 NP_NAME = {"uint": "uint64", "int": "int64", "double": "float64"}      # numpy aliases -> canonical names
 ARRAY_DTYPES = ["bool", "int8", "int16", "int32", "int64", "uint8", "uint16", "uint32", "uint64", "float32", "float64", "str"]
+# explicit arrays beyond the plainly storable ones: float16 is stored as float32 (create_props_metadata), a bytes /
+# complex / datetime array has no geff dtype (rejected by PropMetadata)
+ARRAY_DTYPES_UPCAST = ["float16"]
+ARRAY_DTYPES_UNSTORABLE = ["bytes", "complex128", "datetime64[D]"]
+ELEM_DTYPES = ["int64", "uint8", "int16", "uint64", "float32", "float64", "bool"]      # element arrays of an object array
 RESERVED = ["t", "z", "y", "x", "var_length", "sparse_prop"]
 NAMES = ["label", "score", "color", "w", "k0", "conf", "a b", "Z", "tt", "prop_9", "v", "u"]
+
+
+def generated_names(p, side):
+    """The property names the generator creates itself on that side (a request for an extra property of such a
+    name is contradictory: since fix 42c98a8 it is rejected with ValueError)."""
+    if side == "eep":
+        return ["sparse_prop"] if p["missing"] else []
+    return [a for a in "tzyx" if p[a]] + (["var_length"] if p["varlen"] else []) + (["sparse_prop"] if p["missing"] else [])
 
 RULE = ("bounded-exhaustive: every (num_nodes<=12, num_edges<=max_possible+2, directed) through create_dummy_in_mem_geff; "
         "every subset of {t,z,y,x} x include_varlength x include_missing x directed x num_nodes in {0,1,3} x num_edges in {0,2} "
         "through create_mock_geff; all five wrappers on a grid; random: all id dtypes (unsigned and signed), all axis dtypes, "
-        "extra node/edge property maps over every DTypeStr and explicit arrays (1-D/2-D, every storable dtype), num_nodes up to 40, "
-        "num_edges from 0 to beyond the maximum; boundary: num_nodes at/over the capacity of 8-bit id dtypes, num_edges<0, "
-        "malformed extra-property maps (non-dict, non-string key, unsupported dtype, wrong length, wrong value type), "
-        "non-integer id dtype, str axis dtype; non-trivial = accepted with at least one node; distinct by structural input")
+        "extra node/edge property maps over every DTypeStr and explicit arrays (1-D/2-D, every storable dtype, float16, bytes / complex / "
+        "datetime, object arrays of arrays -- uniform, mixed dtype, mixed rank, float16 elements -- and of non-arrays, 0-d), num_nodes up to 40, "
+        "num_edges from 0 to beyond the maximum; names of generated properties as extra names, clashing (t with include_t, var_length with "
+        "include_varlength, sparse_prop with include_missing, node and edge side) and not clashing (edge t, node t without include_t ...); "
+        "boundary: num_nodes at/over the capacity of 8-bit id dtypes, node-side arange wrap (num_nodes 128..300 with int8/uint8 extras), "
+        "num_edges<0, num_nodes<0, malformed extra-property maps (non-dict incl. a non-dict Mapping, non-string key, unsupported dtype, "
+        "wrong length, wrong value type), non-integer id dtype, str id dtype, str axis dtype; non-trivial = accepted with at least one node; "
+        "distinct by structural input")
 EXHAUSTIVE_BLOCKS = [
     "create_dummy_in_mem_geff: all num_nodes<=12 x num_edges<=max_possible+2 x directed (edge lists compared exactly); "
     "thorough: the same through create_mock_geff (with include_missing and an edge property) for num_nodes<=8",
@@ -49,8 +66,16 @@ ASSUMPTIONS = [
     "numpy (arange / linspace / array casts), zarr MemoryStore and pydantic are modelled by their meaning; float payloads "
     "(linspace coordinates, float extra properties) are opaque in the model and compared store-vs-memory bit for bit by the oracle only",
     "parameter space = the documented one: node_id_dtype an integer dtype name, axis dtypes numeric DTypeStr names, extra property "
-    "names are strings different from t/z/y/x/var_length/sparse_prop and from each other (a clash makes the request contradictory), "
-    "explicit arrays have a dtype geff can store (no float16/object/complex); 0 <= num_nodes, 0 <= num_edges",
+    "names are strings; a name the generator creates itself on that side (an included axis, var_length with include_varlength, "
+    "sparse_prop with include_missing) makes the request contradictory and MUST be rejected (docstring since fix 42c98a8; checked); "
+    "explicit arrays have a dtype geff can store, float16 counting as float32 (create_props_metadata documents the upcast); "
+    "0 <= num_nodes, 0 <= num_edges",
+    "outside the Coq correspondence, oracle only (reason): num_nodes < 0 (the model counts in nat; numpy raises in linspace / zeros); "
+    "an explicit array whose dtype the finite dtype model lacks (complex, datetime); an object array with an element that is not a "
+    "numpy array (AttributeError on a Python object has no model); a 0-d array (len() raises TypeError; VArray carries a length); "
+    "dtype names numpy knows beyond the model's table",
+    "object arrays of arrays are modelled (VObjArray -> variable-length property) and compared in Coq, but the theorems exclude them "
+    "(req_wf) and the oracle treats them as outside the documented space: accepted results must still be valid geffs",
     "include_varlength with num_nodes=0 is rejected (IndexError in geff_spec.utils.create_props_metadata: no element to take the "
     "dtype from; candidate F01a, owned by C01) -- the property speaks about accepted combinations only; the model reproduces the error",
     "the store is read back with zarr-python directly (group / array API), geff's own reader is not used by the check",
@@ -82,13 +107,18 @@ def rand_extras(rng, count_for, used, malformed=None):
     k = rng.choice([0, 1, 1, 2, 3, 4])
     items = []
     for _ in range(k):
-        name = rng.choice([x for x in NAMES if x not in used])
+        pool = NAMES if rng.random() < 0.92 else RESERVED       # now and then the name of a generated property
+        name = rng.choice([x for x in pool if x not in used] or [x for x in NAMES if x not in used])
         used.add(name)
-        if rng.random() < 0.6:
+        r = rng.random()
+        if r < 0.6:
             items.append([name, spec_dtype(rng.choice(PROP_DTYPES))])
-        else:
+        elif r < 0.93:
             tail = rng.choice([(), (), (), (2,), (3, 2), (0,)])
-            items.append([name, spec_array(rng.choice(ARRAY_DTYPES), count_for, tail)])
+            dts = ARRAY_DTYPES if rng.random() < 0.85 else ARRAY_DTYPES_UPCAST + ARRAY_DTYPES_UNSTORABLE[:1]
+            items.append([name, spec_array(rng.choice(dts), count_for, tail)])
+        else:
+            items.append([name, rand_obj(rng, count_for, rng.choice(["uniform", "uniform", "mixed-dtype", "mixed-rank", "float16"]))])
     return items
 
 
@@ -106,14 +136,57 @@ def build_extras(items, kind):
             dt = spec["arr"]
             if dt == "str":
                 val = np.array([f"s{i}" for i in range(int(np.prod(shape)))], dtype="str").reshape(shape)
+            elif dt == "bytes":
+                val = np.array([b"b%d" % (i % 7) for i in range(int(np.prod(shape)))], dtype="S").reshape(shape)
+            elif dt.startswith("datetime64"):
+                val = (np.arange(int(np.prod(shape))) % 2).astype("int64").astype(dt).reshape(shape)
             else:
                 val = (np.arange(int(np.prod(shape))) % 2).astype(dt).reshape(shape)
+        elif "obj" in spec:                     # object array of arrays: [[dtype, shape], ...]
+            val = np.empty(len(spec["obj"]), dtype=object)
+            for i, (edt, eshape) in enumerate(spec["obj"]):
+                val[i] = obj_elem(edt, eshape)
+        elif "objx" in spec:                    # object array holding Python objects that are not arrays
+            val = np.empty(spec["objx"], dtype=object)
+            for i in range(spec["objx"]):
+                val[i] = [1, "a", None][i % 3]
+        elif "arr0" in spec:                    # 0-d array
+            val = np.array(5, dtype=spec["arr0"])
         else:
             val = {"int": 3, "none": None, "list": [1, 2, 3], "float": 0.5}[spec["bad"]]
         out[key] = val
     if kind == "list":
         return list(out.items())
+    if kind == "mappingproxy":                  # a Mapping (the annotated type) that is not a dict
+        import types
+
+        return types.MappingProxyType(out)
     return out
+
+
+def obj_elem(edt, eshape):
+    size = int(np.prod(eshape)) if eshape else 1
+    return (np.arange(size) % 3).astype(edt).reshape(eshape)
+
+
+def spec_obj(elems):
+    return {"obj": [[dt, list(shape)] for dt, shape in elems]}
+
+
+def rand_obj(rng, count, flavour):
+    """An object array of `count` element arrays: uniform / mixed dtype / mixed rank / float16 elements."""
+    dt = rng.choice(ELEM_DTYPES)
+    nd = rng.choice([1, 1, 2, 0])
+    elems = [(dt, [rng.randint(0, 3) for _ in range(nd)]) for _ in range(count)]
+    if flavour == "mixed-dtype" and count >= 2:
+        i = rng.randrange(1, count)
+        elems[i] = (rng.choice([d for d in ELEM_DTYPES if d != dt]), elems[i][1])
+    elif flavour == "mixed-rank" and count >= 2:
+        i = rng.randrange(1, count)
+        elems[i] = (dt, elems[i][1] + [2])
+    elif flavour == "float16":
+        elems = [("float16", sh) for _, sh in elems]
+    return spec_obj(elems)
 
 
 # ---------------------------------------------------------------- generation
@@ -190,6 +263,65 @@ def _generate(rng: random.Random, tier: str):
     for n in (0, 1, 4):
         for e in (-1, -5):
             yield base_case("dummy", n=n, e=e, directed=rng.random() < 0.5)
+    # names of generated properties used as extra names: clashing (rejected since fix 42c98a8) and not clashing
+    for kind in ("dummy", "mock"):
+        for name, spec in (("t", spec_dtype("int8")), ("t", spec_dtype("str")), ("x", spec_array("float64", 3, (2,))),
+                           ("z", spec_dtype("float32")), ("y", spec_array("float16", 3))):
+            yield base_case(kind, n=3, e=2, enp=[[name, spec]])                         # clash with the included axis
+            yield base_case(kind, n=3, e=2, enp=[[name, spec]], **{name: False})        # no clash: the axis is not included
+            yield base_case(kind, n=3, e=2, enp=[["ok", spec_dtype("int")], [name, spec]])
+            espec = dict(spec, len=2) if "arr" in spec else spec
+            yield base_case(kind, n=3, e=2, eep=[[name, espec]])                        # edge side: never a clash with an axis
+        for vl in (False, True):
+            for ms in (False, True):
+                yield base_case(kind, n=3, e=2, varlen=vl, missing=ms, enp=[["var_length", spec_dtype("int")]])
+                yield base_case(kind, n=3, e=2, varlen=vl, missing=ms, enp=[["sparse_prop", spec_dtype("int")]])
+                yield base_case(kind, n=3, e=2, varlen=vl, missing=ms, eep=[["sparse_prop", spec_dtype("str")]])
+                yield base_case(kind, n=3, e=2, varlen=vl, missing=ms, eep=[["var_length", spec_dtype("str")]])
+                yield base_case(kind, n=3, e=2, varlen=vl, missing=ms,
+                                enp=[["sparse_prop", spec_dtype("int")]], eep=[["sparse_prop", spec_dtype("str")]])
+        yield base_case(kind, n=0, e=0, varlen=True, enp=[["t", spec_dtype("int")]])     # ValueError before the IndexError
+    # explicit arrays beyond the plainly storable dtypes
+    for kind in ("dummy", "mock"):
+        for side, count in (("enp", 3), ("eep", 2)):
+            for dt in ARRAY_DTYPES_UPCAST + ARRAY_DTYPES_UNSTORABLE:
+                for tail in ((), (2,)):
+                    c = base_case(kind, n=3, e=2, z=False)
+                    c[side] = [["given", spec_array(dt, count, tail)], ["k0", spec_dtype("uint8")]]
+                    yield c
+            for flavour in ("uniform", "uniform", "mixed-dtype", "mixed-rank", "float16"):
+                c = base_case(kind, n=3, e=2, z=False, missing=rng.random() < 0.5)
+                c[side] = [["o", rand_obj(rng, count, flavour)]]
+                yield c
+            c = base_case(kind, n=3, e=2)
+            c[side] = [["o", {"objx": count}]]
+            yield c
+            c = base_case(kind, n=3, e=2)
+            c[side] = [["z0", {"arr0": "int64"}]]
+            yield c
+            c = base_case(kind, n=0, e=0)                       # an empty object array: no element to take the dtype from
+            c[side] = [["o", spec_obj([])]]
+            yield c
+            c = base_case(kind, n=0, e=0)
+            c[side] = [["h", spec_array("float16", 0, (2,))]]
+            yield c
+            c = base_case(kind, n=3, e=2)
+            c[side] = [["a", spec_dtype("int")]]
+            c[side + "_kind"] = "mappingproxy"
+            yield c
+    # node-side arange wrap-around in a small integer dtype (edge-side wrap needs > 127 edges)
+    for n in (128, 200, 300):
+        for kind in ("dummy", "mock"):
+            yield base_case(kind, id="uint16", n=n, e=3, z=False, y=False,
+                            enp=[["a", spec_dtype("int8")], ["b", spec_dtype("uint8")], ["c", spec_dtype("int16")]])
+    # outside the documented space: a negative node count, a str id dtype
+    for kind in ("dummy", "mock"):
+        yield base_case(kind, n=-1, e=2)
+        yield base_case(kind, n=-1, e=2, z=False, y=False, x=False)
+        yield base_case(kind, n=-1, e=2, z=False, y=False, x=False, enp=[["a", spec_dtype("int")]], missing=True)
+        yield base_case(kind, n=-2, e=0, t=False, z=False, y=False, x=False, enp=[["a", spec_array("int8", 0)]])
+        for n in (0, 3):
+            yield base_case(kind, id="str", n=n, e=2)
     # malformed stream
     bad_specs = [
         [["a", {"dt": "int32"}]], [["a", {"dt": "float16"}]], [["a", {"dt": ""}]], [["a", {"dt": "bool"}]], [["a", {"dt": "uint32"}]],
@@ -361,6 +493,24 @@ def store_view(store, order_n, order_e):
     return v
 
 
+def store_layout(store):
+    """Every member of the store below the root (zarr API): [path, None] for a group, [path, [dtype, shape]] for an array."""
+    import zarr
+
+    out = []
+
+    def walk(g, prefix):
+        for k in sorted(g.keys()):
+            x = g[k]
+            if isinstance(x, zarr.Group):
+                out.append([prefix + k, None])
+                walk(x, prefix + k + "/")
+            else:
+                out.append([prefix + k, [dtype_name(x.dtype), [int(d) for d in x.shape]]])
+    walk(zarr.open_group(store, mode="r"), "")
+    return out
+
+
 def call_impl(c):
     from geff.testing import data as D
 
@@ -454,6 +604,7 @@ def _run_impl(c):
         except Exception as ex:  # noqa: BLE001
             out["struct"] = exn_name(ex)
         out["store"] = store_view(store, [p["name"] for p in out["mem"]["nprops"]], [p["name"] for p in out["mem"]["eprops"]])
+        out["layout"] = store_layout(store)
     return out
 
 
@@ -471,17 +622,17 @@ def resolve(c):
     return c
 
 
-def extras_problem(items, kind, count):
+def extras_problem(items, kind, count, generated=()):
     """None if the extra-property map is one the generators document, else a reason."""
     if items is None:
         return None
-    if kind == "list":
+    if kind in ("list", "mappingproxy"):
         return "not a dict"
     seen = set()
     for name, spec in items:
         if not isinstance(name, str):
             return "non-string key"
-        if name in RESERVED or name in seen:
+        if name in generated or name in seen:
             return "name clash"
         seen.add(name)
         if "dt" in spec:
@@ -490,9 +641,25 @@ def extras_problem(items, kind, count):
         elif "arr" in spec:
             if spec["len"] != count:
                 return "wrong length"
+            if spec["arr"] in ARRAY_DTYPES_UNSTORABLE:
+                return "array dtype geff cannot store"
+        elif "obj" in spec or "objx" in spec:
+            return "object array"
+        elif "arr0" in spec:
+            return "0-d array"
         else:
             return "wrong value type"
     return None
+
+
+def has_clash(p):
+    for side in ("enp", "eep"):
+        if p.get(side + "_kind") in ("list", "mappingproxy") or not p[side]:
+            continue
+        gen = generated_names(p, side)
+        if any(isinstance(n, str) and n in gen for n, _ in p[side]):
+            return True
+    return False
 
 
 def in_domain(p):
@@ -507,7 +674,7 @@ def in_domain(p):
         return False, "negative count"
     n_edges = min(p["e"], max_possible(p["directed"], p["n"]))
     for side, count in (("enp", p["n"]), ("eep", n_edges)):
-        why = extras_problem(p[side], p.get(side + "_kind"), count)
+        why = extras_problem(p[side], p.get(side + "_kind"), count, generated_names(p, side))
         if why:
             return False, f"{side}: {why}"
     cap = int(np.iinfo(NP_NAME.get(p["id"], p["id"])).max) + 1
@@ -623,6 +790,8 @@ def request_problems(p, v, where):
     for side, want, in (("enp", want_n), ("eep", want_e)):
         for name, spec in p[side] or []:
             dt = spec["dt"] if "dt" in spec else spec["arr"]
+            if "arr" in spec and dt == "float16":
+                dt = "float32"              # create_props_metadata: "If dtype is float16, upcasts to float32"
             want.append((name, NP_NAME.get(dt, dt), False, False))
     if p["varlen"]:
         want_n.append(("var_length", "uint64", True, True))
@@ -673,6 +842,12 @@ def oracle(c, o):
         if inside:
             return Failure(c, o, f"documented parameter combination rejected with {o['exc_type']}", dict(tags, why="rejects"))
         return None
+    if c["kind"] in ("dummy", "mock") and p["n"] >= 0 and has_clash(p):
+        # "mock-data generators honour their parameters": a request for an extra property named like a property the
+        # generator creates itself cannot be honoured (one of the two is lost) -- documented as a ValueError
+        return Failure(c, o, "accepted a request whose extra property has the name of a generated property "
+                             f"({why}): either the coordinate / flag property or the requested one is lost",
+                       dict(tags, why="accepts-clash"))
     if not inside:
         if why in ("negative count",):
             return None
@@ -794,7 +969,7 @@ def shrink(c):
 
 # ---------------------------------------------------------------- Coq terms
 NP_TABLE = ["uint", "int", "double", "uint8", "uint16", "uint32", "uint64", "int8", "int16", "int32", "int64", "float32", "float64", "str"]
-ID_MODELLED = ID_DTYPES + ID_DTYPES_SIGNED + ["float32", "float64", "double"]
+ID_MODELLED = ID_DTYPES + ID_DTYPES_SIGNED + ["float32", "float64", "double", "str"]
 
 
 def _numpy_knows(s):
@@ -810,10 +985,16 @@ def _name_ok_for_model(s):
     return s in NP_TABLE or not _numpy_knows(s)
 
 
+def cvarr_elem(edt, eshape):
+    a = obj_elem(edt, eshape)
+    return (f"{{| v_dt := {DTYPE_COQ[edt]}; v_shape := {clist(eshape, cnat)}; "
+            f"v_flat := {clist([int(v) for v in a.ravel().tolist()], cz)} |}}")
+
+
 def cextras(items, kind):
     if items is None:
         return "ENone"
-    if kind == "list":
+    if kind in ("list", "mappingproxy"):
         return "ENotDict"
 
     def one(item):
@@ -823,6 +1004,8 @@ def cextras(items, kind):
             v = f"(VDtype {cstr(spec['dt'])})"
         elif "arr" in spec:
             v = f"(VArray {DTYPE_COQ[spec['arr']]} {cnat(spec['len'])} {clist(spec['tail'], cnat)})"
+        elif "obj" in spec:
+            v = f"(VObjArray {clist(spec['obj'], lambda e: cvarr_elem(e[0], e[1]))})"
         else:
             v = "VOther"
         return f"({k}, {v})"
@@ -882,12 +1065,14 @@ def coq_case(c, o):
             return None
         for side in ("enp", "eep"):
             names = [n for n, _ in (c[side] or []) if isinstance(n, str)]
-            if len(set(names)) != len(names) or any(n in RESERVED for n in names):
+            if len(set(names)) != len(names):
                 return None
             for _, spec in c[side] or []:
                 if "dt" in spec and not _name_ok_for_model(spec["dt"]) and spec["dt"] in PROP_DTYPES:
                     return None
-                if "arr" in spec and spec["arr"] not in ARRAY_DTYPES:
+                if "arr" in spec and spec["arr"] not in DTYPE_COQ:     # complex, datetime: no such dtype in the model
+                    return None
+                if "objx" in spec or "arr0" in spec:                   # Python objects / 0-d arrays: not representable
                     return None
         inp = f"{'IDummy' if k == 'dummy' else 'IMock'} {cparams(c)}"
     elif k == "empty":
@@ -907,5 +1092,13 @@ def coq_case(c, o):
         return "(Ok tt)" if x == "ok" else f"(Err {x})"
     store = f"(Some {cgview(o['store'])})" if "store" in o else "None"
     struct = f"(Some {cr(o['struct'])})" if "struct" in o else "None"
+
+    def cmember(m):
+        if m[1] is None:
+            return f"({cstr(m[0])}, None)"
+        if m[1][0] not in DTYPE_COQ:
+            raise HarnessError(f"store member {m[0]} has dtype {m[1][0]}")
+        return f"({cstr(m[0])}, Some ({DTYPE_COQ[m[1][0]]}, {clist(m[1][1], cnat)}))"
+    layout = f"(Some {clist(o['layout'], cmember)})" if "layout" in o else "None"
     return (f"({inp}, OOut (Ok {{| o_mem := {cgview(o['mem'])}; o_store := {store}; o_struct := {struct}; "
-            f"o_graph := {cr(o['graph'])} |}}))")
+            f"o_graph := {cr(o['graph'])}; o_layout := {layout} |}}))")
